@@ -203,17 +203,23 @@ func c03Block(tag string, dataLen int) *nom.AccountBlock {
 
 // c03KeyAndSignature: drawn only once the first stage accepted (they are read by the transaction stage only)
 func c03KeyAndSignature(b *nom.AccountBlock, tag string) {
-	switch verifNondetLen(tag+".len(PublicKey)", 0, 2) {
+	// lengths: none, exact, one short, one long (trailing bytes must not be ignored: they would be a second
+	// acceptable variant of the block under the same hash, C13)
+	switch verifNondetLen(tag+".len(PublicKey)", 0, 3) {
 	case 1:
 		b.PublicKey = verifNondetBytes(tag+".PublicKey", 32)
 	case 2:
 		b.PublicKey = verifNondetBytes(tag+".PublicKey", 31)
+	case 3:
+		b.PublicKey = verifNondetBytes(tag+".PublicKey", 33)
 	}
-	switch verifNondetLen(tag+".len(Signature)", 0, 2) {
+	switch verifNondetLen(tag+".len(Signature)", 0, 3) {
 	case 1:
 		b.Signature = verifNondetBytes(tag+".Signature", 64)
 	case 2:
 		b.Signature = verifNondetBytes(tag+".Signature", 63)
+	case 3:
+		b.Signature = verifNondetBytes(tag+".Signature", 65)
 	}
 }
 
